@@ -182,6 +182,12 @@ def run(ctx):
         for o in orders:
             for rep in range(6 if o == orders[0] else 1):
                 jobs.append((gi, dict(zip(names, texts)), list(o)))
+        if len(names) >= 2:
+            # the same files with one of them given through a directory argument, the directory first and last
+            dn = names[-1]
+            rest = names[:-1]
+            jobs.append((gi, dict(zip(names, texts)), [(dn,)] + rest))
+            jobs.append((gi, dict(zip(names, texts)), rest + [(dn,)]))
         if ctx.quick() and len(jobs) > 260: break
     def do(job):
         gi, files, order = job
